@@ -324,6 +324,9 @@ def check_wrapper(ctx, w, c, res, fdotted, fmod, fdef):
             for kk, vv in kw:
                 if kk == "**" and vv[0] == "dict" and all(x[0] == "k" and isinstance(x[1], str) for x, _ in vv[1]):
                     expanded.extend((x[1], y) for x, y in vv[1])
+                elif kk == "**" and vv[0] == "sattr" and (res.strip_ident(res.attrs.get(vv[1])) or ("?",))[0] == "dict":
+                    # a dict built by the constructor: its values were captured at construction time
+                    expanded.extend((x, ("ctor", vv[1], y)) for x, y in res.strip_ident(res.attrs[vv[1]])[1])
                 else:
                     expanded.append((kk, vv))
             for kk, vv in expanded:
@@ -418,6 +421,10 @@ def check_wrapper(ctx, w, c, res, fdotted, fmod, fdef):
                 good, why = False, "not forwarded at all (the function's default is used whatever the object was built with)"
             elif v[0] == "sattr" and res.strip_ident(res.attrs.get(v[1])) == PARAM(opt):
                 pass
+            elif v[0] == "ctor":
+                good, why = False, ("forwarded from self.%s, a dict filled by the constructor (%r): the value is captured at construction "
+                                    "time, so set_params(%s=...) / a later assignment of self.%s has no effect on the call"
+                                    % (v[1], v[2], opt, opt))
             elif v[0] in ("sattr", "k", "p", "not", "f") or not any(
                     x[0] == "sattr" and res.strip_ident(res.attrs.get(x[1])) == PARAM(opt) for x in S.subterms(v)):
                 good, why = False, "forwarded value is %s, not the attribute holding the constructor argument" % show(v)
@@ -623,6 +630,14 @@ def rule_functions(ctx, w):
             ctx.undecided("R3", "%s:paths" % name, "a path falls off the end without returning a value "
                           "(conditions %s)" % ([(show(a), v) for a, v in fall[0].conds] if fall else "none return"), loc)
             continue
+        try:
+            normal, fell = expand_delegation(w, name, normal)
+        except Undecidable as e:
+            ctx.undecided("R3", "%s:paths" % name, str(e), loc)
+            continue
+        if fell:
+            ctx.undecided("R3", "%s:paths" % name, "a delegated metric falls off the end without returning a value", loc)
+            continue
         if any(S.has_unknown(p.value) for p in normal):
             bad = [p for p in normal if S.has_unknown(p.value)][0]
             ctx.undecided("R3", "%s:paths" % name, "return value not interpretable: %s" % show(bad.value)[:200], loc)
@@ -637,6 +652,43 @@ def rule_functions(ctx, w):
             check_delegate(ctx, w, name, fn, agg, toks, normal, params, loc)
         else:
             check_direct(ctx, w, name, fn, agg, toks, normal, params, loc)
+
+
+def expand_delegation(w, name, normal, depth=0):
+    """A path that returns ``other_public_metric(...)`` is replaced by that metric's own paths (executed with the
+    actual arguments), so the name <-> operator obligations of ``name`` are checked on what is really computed."""
+    out, fell = [], False
+    for p in normal:
+        v = p.value
+        g = v[1][1][len(FMOD) + 1:] if (v[0] == "call" and v[1][0] == "f" and v[1][1].startswith(FMOD + ".")) else None
+        if g is None or g == name or g not in w.funcs or v[2] or depth >= 2:
+            out.append(p)
+            continue
+        gdef = w.funcs[g]
+        names, dflt, _ = w.sig(gdef)
+        bound = dict(dflt)
+        bound.update(dict(v[3]))
+        if any(k not in names for k in bound) or any(k not in bound for k in names):
+            out.append(p)
+            continue
+        sub_paths = w.ex.run(w.fmod, gdef, bound)
+        subs = [q for q in sub_paths if q.outcome == "return"]
+        fell = fell or any(q.outcome == "fall" for q in sub_paths)
+        subs, f2 = expand_delegation(w, g, subs, depth + 1)
+        fell = fell or f2
+        for q in subs:
+            conds = list(p.conds)
+            feasible = True
+            for a, val in q.conds:
+                d = S.decide(a, conds)
+                if d is None:
+                    conds.append((a, val))
+                elif d != val:
+                    feasible = False
+                    break
+            if feasible:
+                out.append(S.Path(conds, "return", q.value, p.effects + q.effects, q.env))
+    return out, fell
 
 
 def _all(ctx, rule, construct, items, ok_detail, loc):
